@@ -322,7 +322,17 @@ func (g *Gen) lookupName(st *State, name string, env map[string]Val) Val {
 
 // fieldOf evaluates spec expression base.f1.f2 (struct values by path, pointers through the heap).
 func (g *Gen) fieldOf(st *State, base, field string, env map[string]Val) Val {
-	// package-qualified constant or global (pkg.Name) is not supported: treat as name lookup failure
+	// package-qualified constant (pkg.Name) of an imported package
+	if _, shadow := env[base]; !shadow && g.fn.Pkg != nil {
+		for _, imp := range g.fn.Pkg.Pkg.Imports() {
+			if imp.Name() == base && !strings.Contains(field, ".") {
+				if cn, ok := imp.Scope().Lookup(field).(*types.Const); ok {
+					return g.val(st, ssa.NewConst(cn.Val(), cn.Type()))
+				}
+				panic(specErr{"spec: " + base + "." + field + " is not a constant"})
+			}
+		}
+	}
 	cur := g.lookupName(st, base, env)
 	t := cur.Ty
 	if t == nil {
@@ -348,6 +358,32 @@ func (g *Gen) fieldOf(st *State, base, field string, env map[string]Val) Val {
 				panic(specErr{"spec: field access on pointer to non-struct " + base + "." + field})
 			}
 			idx := fieldIndex(stt, fname)
+			if idx < 0 {
+				// promoted field through an embedded struct / pointer: resolve the embedding first
+				if emb := embeddedWith(stt, fname); emb >= 0 {
+					key, ft := g.heapKey(t, emb)
+					h := g.heapGet(st, key)
+					if isOld {
+						if o, ok := g.entryHeap[key]; ok {
+							h = o
+						} else {
+							h = "|H0." + key + "|"
+							if _, ok := g.decls[h]; !ok {
+								g.decls[h] = g.heapSort[key]
+								g.declOrder = append(g.declOrder, h)
+							}
+						}
+					}
+					if _, isPtr := ft.Underlying().(*types.Pointer); !isPtr {
+						panic(specErr{"spec: promoted field through embedded value struct not supported: " + base + "." + field})
+					}
+					cur = Val{T: fmt.Sprintf("(select %s %s)", h, cur.T), Kind: "opaque", Ty: ft}
+					t = ft
+					pt = ft.Underlying().(*types.Pointer)
+					stt = pt.Elem().Underlying().(*types.Struct)
+					idx = fieldIndex(stt, fname)
+				}
+			}
 			if idx < 0 {
 				panic(specErr{"spec: no field " + fname + " in " + base + "." + field})
 			}
@@ -402,6 +438,25 @@ func (g *Gen) fieldOf(st *State, base, field string, env map[string]Val) Val {
 func fieldIndex(stt *types.Struct, name string) int {
 	for i := 0; i < stt.NumFields(); i++ {
 		if stt.Field(i).Name() == name {
+			return i
+		}
+	}
+	return -1
+}
+
+// embeddedWith returns the index of the embedded field of stt (struct or pointer to struct) that
+// directly declares field name, or -1.
+func embeddedWith(stt *types.Struct, name string) int {
+	for i := 0; i < stt.NumFields(); i++ {
+		f := stt.Field(i)
+		if !f.Embedded() {
+			continue
+		}
+		t := f.Type()
+		if p, ok := t.Underlying().(*types.Pointer); ok {
+			t = p.Elem()
+		}
+		if s, ok := t.Underlying().(*types.Struct); ok && fieldIndex(s, name) >= 0 {
 			return i
 		}
 	}
